@@ -10,7 +10,10 @@ git -C /repo worktree add -q "$WT" HEAD || exit 3
 if ! git -C "$WT" apply "$PATCH"; then echo "PATCH DOES NOT APPLY"; git -C /repo worktree remove --force "$WT"; exit 3; fi
 for id in $IDS; do
   cp -f evidence/$id.json /tmp/ev_$$_$id.json 2>/dev/null
-  GEPARD_REPO="$WT" VERIF_SEED=$SEED timeout 1500 ./check $id 2>&1 | grep -E "^(OK|FAIL|VIOLATION|ERROR|TIMEOUT|KNOWN|  )" | cut -c1-260 | head -12 | sed "s/^/[$id] /"
+  GEPARD_REPO="$WT" VERIF_SEED=$SEED timeout 1500 ./check $id > /tmp/st_$$_$id.out 2>&1
+  # verdict lines, each VIOLATION followed by its explanation line (tracebacks are left out)
+  awk '/^(OK|FAIL|VIOLATION|ERROR|TIMEOUT)/ {print; v = ($0 ~ /^VIOLATION/); next} v && /^  / {print; v = 0; next} {v = 0}' /tmp/st_$$_$id.out | cut -c1-260 | head -14 | sed "s/^/[$id] /"
+  rm -f /tmp/st_$$_$id.out
   # evidence committed under /verif must come from runs against /repo itself: put the previous file back
   mv -f /tmp/ev_$$_$id.json evidence/$id.json 2>/dev/null
 done
